@@ -19,7 +19,9 @@ func init() {
 			}
 			t0 = time.Now()
 		}
+		gen.CLIIndexed = cliIndexOracle(c)
 		gen.CheckPanics(c.Run, c.Prog)
+		gen.CLIIndexed = nil
 		tick("panics")
 		gen.CheckErrors(c.Run, c.Prog)
 		gen.CheckLoopsPureUntilExit(c.Run, c.Prog)
